@@ -754,6 +754,9 @@ func c19LiveRun(lc *liveCase, concurrent bool, baseline [][]bool) ([][]bool, str
 				snd, dst := sh.accountsFor(c)
 				out, err := fn.ProcessBuiltinFunction(snd, dst, layOut(c).in)
 				o.err = err
+				if err == nil && out != nil {
+					sh.nodeSave(c, snd, dst)
+				}
 				if out != nil {
 					o.remaining = out.GasRemaining
 					o.consumed = c.Gas - out.GasRemaining
